@@ -29,9 +29,13 @@ def run(ctx: Ctx) -> None:
     ctx.rule('R-LOSSLESS-L7', 'the inserted separator is distinguishable from authored text')
     ctx.rule('R-LOSSLESS-L1', 'tokens are placed whole')
     ctx.rule('R-LOSSLESS-L3', 'last segment is flushed')
+    ctx.rule('R-ATOMIC-pre', 'the tag/block spacing pre-pass carries no mode from line to line')
+    ctx.rule('R-ATOMIC-cont', 'the multi-line tag fix tells a continuation line from a tag line by the tag openers alone (not by indentation)')
     ctx.rule('R-PREPARSE', 'tag/block spacing is forced before parsing')
     ctx.run(atomic.check_tables)
     ctx.run(atomic.check_post_passes)
+    ctx.run(atomic.check_preprocess_stateless)
+    ctx.run(atomic.check_continuation_test)
     ctx.run(wrap.check_placeholders)
     ctx.run(wrap.check_adjacency)
     ctx.run(wrap.check_word_placement)
